@@ -20,7 +20,8 @@ fn concrete(schema: &str, path: &str, kind: &str, free: &Value) -> Value {
         (p, _) if p.ends_with(".version") && !p.contains("distros") => json!({"s": "1.2.3"}),
         ("buildpack.sbom-formats", _) => json!({"a": [{"s": "application/vnd.cyclonedx+json"}, {"s": "application/spdx+json"}]}),
         ("buildpack.uri", _) => json!({"s": "."}),
-        ("dependencies[].uri", _) => json!({"s": "docker://docker.io/x/y:1"}),
+        // (deliberately not in RFC 3986 normal form: the value must come back as written)
+        ("dependencies[].uri", _) => json!({"s": "docker://Registry.Example.COM:5000/a/../b%7ec/./y:1"}),
         ("platform.os", _) => json!({"s": "windows"}),
         ("processes[].type", _) => json!({"s": "web-1.x_y"}),
         (p, "string") => json!({"s": format!("value of {p} in {schema} \"quoted\"")}),
